@@ -313,7 +313,16 @@ def run_and_validate(ctx, worlds, report, max_rejections=12, module="Ps3NetSrvTr
                     "behaviour that explains this observation.\nrejected event: %s\nlast explained event: %s" % (
                         worlds[badw]["name"], k - acc + 1, len(all_groups[badw]),
                         json.dumps(rl)[:1500], json.dumps(last_ok)[:600]))
-            report.violation(sig_of_line(rl), text, {"script.json": {ctx.key: [worlds[badw]]},
+            sig = sig_of_line(rl)
+            if rl is not None and rl.get("ev") == "Volume":
+                import re
+                out = (v2.res.out if v2 is not None else v.res.out)
+                cl = set()
+                for m in re.finditer(r'<<"FAILED", "%s", \{(.*?)\}>>' % re.escape(str(rl.get("name"))), out):
+                    cl |= set(x.strip().strip('"') for x in m.group(1).split(","))
+                sig = "Volume:" + "+".join(sorted(cl))
+                text += "\nviolated clauses: " + ", ".join(sorted(cl))
+            report.violation(sig, text, {"script.json": {ctx.key: [worlds[badw]]},
                                                     "trace.ndjson": "\n".join(json.dumps(x) for x in all_groups[badw]),
                                                     "tlc.out": v.res.out[-4000:]})
             rejections += 1
